@@ -21,6 +21,7 @@ package main
 
 import (
 	"bytes"
+	"encoding/binary"
 	"fmt"
 	"regexp"
 	"strconv"
@@ -277,6 +278,20 @@ func bigExpect(lead []uint64, firstPtr, list bool, pc int) []byte {
 	return rd.Words(append(ws, body...)...)
 }
 
+// dataBig: the root (or the single list element) has few pointers, i.e. the size is in the data
+// section (the model-side decoder is linear on those; pointer-big structs stay predicate-only)
+func dataBig(seg []byte) bool {
+	w := binary.LittleEndian.Uint64(seg)
+	if w>>48 <= 4 && (w>>32)&0xffff >= 1000 {
+		return true
+	}
+	if len(seg) >= 24 { // root {0,1} -> struct list with one element: tag at word 2
+		t := binary.LittleEndian.Uint64(seg[16:])
+		return w == rd.StructPtr(0, 0, 1) && t>>48 <= 4 && (t>>32)&0xffff >= 1000
+	}
+	return false
+}
+
 func observeBig(m *rd.Msg, expect []byte) string {
 	_, out := canonObs(m, genT, 0, "r")
 	if out == nil {
@@ -289,6 +304,10 @@ func observeBig(m *rd.Msg, expect []byte) string {
 	r1, i1 := readBackEqual(m, "r", snap), idempotent(snap)
 	x1 := expect == nil || bytes.Equal(snap, expect)
 	if r1 && i1 && k1 && j1 && x1 {
+		if len(m.Segs) == 1 && len(m.Segs[0]) > 200000 && len(snap) < 4096 && dataBig(m.Segs[0]) {
+			// data-big input: the decoder + specification are evaluated by the model side too
+			return "big ok:" + Hx(snap)
+		}
 		return "big"
 	}
 	return "big-FAIL:R" + bit(r1) + "I" + bit(i1) + "K" + bit(k1) + "J" + bit(j1) + "X" + bit(x1)
